@@ -116,7 +116,10 @@ fn main() {
         if latency > 0 && !is_mgmt {
             std::thread::sleep(std::time::Duration::from_millis(latency));
         }
-        let reply = if let Some(v) = sql.strip_prefix("select ") {
+        let reply = if sql.starts_with("CREATE DATABASE") && sql.contains("nocreate") {
+            // the server refuses to create this one database (the CLI goes on regardless)
+            serde_json::json!({ "err": "permission denied to create database" })
+        } else if let Some(v) = sql.strip_prefix("select ") {
             let row: Vec<String> = v.split(',').map(|s| s.trim().to_string()).collect();
             serde_json::json!({ "result": [row] })
         } else if let Some(n) = sql.strip_prefix("rows ") {
@@ -140,6 +143,12 @@ fn main() {
             } else {
                 serde_json::json!({ "result": [] })
             }
+        } else if let Some(rest) = sql.strip_prefix("big ") {
+            // a reply larger than a pipe buffer, written after a pause: whoever gave up waiting for it
+            // must still let the engine finish (or see end-of-file)
+            let n: usize = rest.split_whitespace().next().and_then(|s| s.parse().ok()).unwrap_or(0);
+            std::thread::sleep(std::time::Duration::from_millis(300));
+            serde_json::json!({ "result": [["x".repeat(n)]] })
         } else if sql.starts_with("blankrow") {
             // two rows of one column; the second value is a single blank
             serde_json::json!({ "result": [["v"], [" "]] })
